@@ -108,6 +108,7 @@ pub fn execute(cx: &mut Ctx, p: &Prepared, built: &Compiled, w: &WMap, debug: bo
                 Event::Fail => cx.report.count("events_fail", 1),
                 Event::Marker { .. } => cx.report.count("events_marker", 1),
                 Event::OtherAssert { .. } => cx.report.count("events_other_assert", 1),
+                Event::Witness { .. } => cx.report.count("events_witness", 1),
             }
         }
         if let Err(e) = compare_traces(p, &r.events, &trace.events, if debug { Some(syms) } else { None }) {
